@@ -25,6 +25,7 @@
 #include <future>
 #include <queue>
 #include <random>
+#include <thread>
 #include <unordered_map>
 #include <vector>
 
@@ -294,6 +295,12 @@ public:
         killAfterTimeoutThread->join();
       }
     }
+
+    // Wait for the detached threads of lane-released processes: they still
+    // call the delegate and the completion function, and then decrement
+    // backgroundTaskCount, after their process has left the process group.
+    while (backgroundTaskCount.load() != 0)
+      std::this_thread::sleep_for(std::chrono::milliseconds(1));
   }
 
   /// Returns the number of allowed foreground and background tasks.
